@@ -571,7 +571,7 @@ def opWF : Op → Prop
 instance (op : Op) : Decidable (opWF op) := by
   cases op <;> unfold opWF <;> infer_instance
 
-theorem inv4_frame {s s' : State} (h : Inv4 s) (hf : C01.Frame s s') (r : Res) : Inv4 (bump (s', r)).1 := by
+theorem inv4_frame {s s' : State} (h : Inv4 s) (hf : C01.FrameX s s') (r : Res) : Inv4 (bump (s', r)).1 := by
   refine ⟨?_, fun ctx hx => h.names ctx (by have : s'.cur = some ctx := hx; rwa [hf.cur] at this),
     fun c hx => h.rawWF c (by have : s'.raw = some c := hx; rwa [hf.raw] at this),
     fun c hx => h.jsonWF c (by have : s'.rawJSON = some c := hx; rwa [hf.rawJSON] at this)⟩
@@ -585,11 +585,11 @@ theorem inv4_step {s : State} (h : Inv4 s) (op : Op) (hw : opWF op) : Inv4 (step
   | patch a e =>
     unfold step
     cases hr : s.raw with
-    | none => exact inv4_frame h (C01.Frame.rfl' s) _
+    | none => exact inv4_frame h (C01.FrameX.rfl' s) _
     | some c0 =>
       dsimp only
       cases hra : replaceApp a c0.apps with
-      | none => exact inv4_frame h (C01.Frame.rfl' s) _
+      | none => exact inv4_frame h (C01.FrameX.rfl' s) _
       | some apps =>
         refine inv4_changeTo h _ e ?_
         show (apps.map (·.name)).Nodup
@@ -598,16 +598,16 @@ theorem inv4_step {s : State} (h : Inv4 s) (op : Op) (hw : opWF op) : Inv4 (step
   | del n e =>
     unfold step
     cases hr : s.raw with
-    | none => exact inv4_frame h (C01.Frame.rfl' s) _
+    | none => exact inv4_frame h (C01.FrameX.rfl' s) _
     | some c0 =>
       dsimp only
       cases hra : removeApp n c0.apps with
-      | none => exact inv4_frame h (C01.Frame.rfl' s) _
+      | none => exact inv4_frame h (C01.FrameX.rfl' s) _
       | some apps =>
         refine inv4_changeTo h _ e ?_
         show (apps.map (·.name)).Nodup
         exact ((removeApp_sublist n c0.apps apps hra).map _).nodup (h.rawWF c0 hr)
-  | junk => exact inv4_frame h (C01.Frame.rfl' s) _
+  | junk => exact inv4_frame h (C01.FrameX.rfl' s) _
   | validate c e => exact inv4_frame h (C01.validate_frame c e s) _
   | stop =>
     have hb := unsyncedStop_balS s.cur s [] s.next [] h.names (by rw [List.append_nil, ← curApps_eq]; exact h.bal)
